@@ -8,6 +8,7 @@ import (
 	"flag"
 	"fmt"
 	"os"
+	"path/filepath"
 	"runtime"
 	"sort"
 
@@ -32,6 +33,7 @@ func main() {
 	user := flag.String("user", "", "user name")
 	pwfile := flag.String("pwfile", "", "file holding the password bytes")
 	admin := flag.Bool("admin", false, "admin flag")
+	swap := flag.Bool("swapdir", false, "the process has used the store before, then the directory was replaced under the same path (restore from a backup)")
 	warm := flag.String("warm", "", "configuration of another store the process has used before (add, update, set-admin, remove there first)")
 	flag.Parse()
 	var pw string
@@ -59,6 +61,25 @@ func main() {
 		w.SetAdmin("warmup", true)
 		w.Authenticate("warmup", "warm password 2")
 		w.RemoveUser("warmup")
+	}
+	if *swap {
+		d.AddUser("warmup", "warm password", false)
+		d.SetAdmin("warmup", true)
+		d.RemoveUser("warmup")
+		old := d.BaseDir + ".old"
+		if err := os.Rename(d.BaseDir, old); err != nil {
+			fmt.Fprintln(os.Stderr, "HARNESS ERROR:", err)
+			os.Exit(2)
+		}
+		os.Mkdir(d.BaseDir, 0700)
+		ents, _ := os.ReadDir(old)
+		for _, e := range ents {
+			if e.IsDir() {
+				continue
+			}
+			b, _ := os.ReadFile(filepath.Join(old, e.Name()))
+			os.WriteFile(filepath.Join(d.BaseDir, e.Name()), b, 0600)
+		}
 	}
 	var r result
 	os.Stat("/VERIF-MARK-BEGIN")
